@@ -7,6 +7,8 @@ package main
 // sibling builtins, which must agree on what they take for a sequence.
 
 import (
+	"fmt"
+	"go/constant"
 	"go/token"
 	"go/types"
 	"sort"
@@ -16,10 +18,12 @@ import (
 )
 
 type kindAnalysis struct {
-	w     *World
-	kinds map[string]types.Type // nil -> nil type
-	memo  map[string]map[string]bool
-	busy  map[string]bool
+	w        *World
+	kinds    map[string]types.Type // nil -> nil type
+	memo     map[string]map[string]bool
+	busy     map[string]bool
+	verdicts map[string]int
+	e        *Engine
 }
 
 func newKindAnalysis(w *World) *kindAnalysis {
@@ -259,4 +263,421 @@ func siblingDomainRule(w *World, r *Report, rule string) {
 		}
 	}
 	r.floor(rule, "count-taking sequence builtins", len(sibs), 4)
+}
+
+// acceptedKindsTable: for every registered builtin of lib/core and each of its lisp-value parameters, the kinds of
+// value for which a return without error is reachable (one line per parameter).
+func acceptedKindsTable(w *World) []string {
+	ka := newKindAnalysis(w)
+	var out []string
+	var kinds []string
+	for k := range ka.kinds {
+		kinds = append(kinds, k)
+	}
+	sort.Strings(kinds)
+	for _, fn := range w.registeredFuncs() {
+		if !strings.HasSuffix(fnPkgPath(fn), "/lib/core") || fn.Parent() != nil || len(fn.Blocks) == 0 {
+			continue
+		}
+		for i, p := range fn.Params {
+			if !isMalType(p.Type()) {
+				continue
+			}
+			var acc, rej []string
+			for _, k := range kinds {
+				switch ka.verdict(fn, i, k, 0) {
+				case kindAccept:
+					acc = append(acc, k)
+				case kindReject:
+					rej = append(rej, k)
+				}
+			}
+			out = append(out, fmt.Sprintf("\t%q: {%q, %q},", fn.Name()+"#"+itoa(i), strings.Join(acc, ","), strings.Join(rej, ",")))
+		}
+	}
+	sort.Strings(out)
+	return out
+}
+
+// ---------------------------------------------------------------------------
+// Three-valued verdicts: does fn accept a value of kind k for parameter idx?
+
+const (
+	kindUnknown = 0
+	kindAccept  = 1 // a return without error is reachable, and every test on the way was decided by the kind
+	kindReject  = 2 // every reachable return reports an error
+)
+
+// verdict: follows the control flow of fn with the dynamic kind of parameter idx fixed to k. Tests of the
+// parameter's type are decided; a test that mentions the parameter in another way (a predicate that could not be
+// decided) makes the verdict unknown. A return that hands on the results of a function of the module the
+// parameter was passed to is judged by that function.
+func (ka *kindAnalysis) verdict(fn *ssa.Function, idx int, k string, depth int) int {
+	key := fn.String() + "#" + itoa(idx) + "#" + k
+	if ka.verdicts == nil {
+		ka.verdicts = map[string]int{}
+	}
+	if v, ok := ka.verdicts[key]; ok {
+		return v
+	}
+	ka.verdicts[key] = kindUnknown // recursion guard
+	v := ka.verdictUncached(fn, idx, k, depth)
+	ka.verdicts[key] = v
+	return v
+}
+
+func (ka *kindAnalysis) verdictUncached(fn *ssa.Function, idx int, k string, depth int) int {
+	if depth > 4 || len(fn.Blocks) == 0 || idx >= len(fn.Params) {
+		return kindUnknown
+	}
+	p := fn.Params[idx]
+	kt := ka.kinds[k]
+	isP := func(v ssa.Value) bool {
+		for {
+			switch x := v.(type) {
+			case *ssa.MakeInterface:
+				v = x.X
+				continue
+			case *ssa.ChangeInterface:
+				v = x.X
+				continue
+			case *ssa.ChangeType:
+				v = x.X
+				continue
+			}
+			break
+		}
+		return v == ssa.Value(p)
+	}
+	assign := map[ssa.Value]bool{}
+	// values that depend on the parameter in a way the analysis cannot decide
+	murky := map[ssa.Value]bool{}
+	argIndex := func(c *ssa.CallCommon) int {
+		for i, a := range c.Args {
+			if isP(a) {
+				return i
+			}
+		}
+		return -1
+	}
+	for _, b := range fn.Blocks {
+		for _, in := range b.Instrs {
+			switch x := in.(type) {
+			case *ssa.Extract:
+				if ta, ok := x.Tuple.(*ssa.TypeAssert); ok && ta.CommaOk && x.Index == 1 && isP(ta.X) {
+					if _, isIface := ta.AssertedType.Underlying().(*types.Interface); !isIface {
+						assign[x] = kt != nil && types.Identical(ta.AssertedType, kt)
+					} else {
+						murky[x] = true
+					}
+				}
+				if c, ok := x.Tuple.(*ssa.Call); ok {
+					callee := c.Call.StaticCallee()
+					ai := argIndex(&c.Call)
+					if ai < 0 {
+						continue
+					}
+					if callee == nil || !inModule(callee) || len(callee.Blocks) == 0 || ai >= len(callee.Params) {
+						murky[x] = true
+						continue
+					}
+					switch {
+					case isErrorType(x.Type()):
+						if ka.verdict(callee, ai, k, depth+1) == kindReject {
+							for _, ref := range *x.Referrers() {
+								if bo, ok := ref.(*ssa.BinOp); ok && isNilConst(bo.Y) && (bo.Op == token.NEQ || bo.Op == token.EQL) {
+									assign[bo] = bo.Op == token.NEQ
+								}
+							}
+						}
+						// otherwise the callee may fail for other reasons too: its error decides nothing about
+						// the kind, and is no test of the parameter either
+					case isBoolType(x.Type()):
+						t, f := ka.boolResult(callee, ai, k, x.Index, depth+1)
+						if t != f {
+							assign[x] = t
+						} else {
+							murky[x] = true
+						}
+					}
+				}
+			case *ssa.BinOp:
+				if (x.Op == token.EQL || x.Op == token.NEQ) && isNilConst(x.Y) && isP(x.X) {
+					assign[x] = (x.Op == token.EQL) == (k == "nil")
+				}
+			case *ssa.Call:
+				// a predicate on the parameter: Q[List](x), List_Q(x), Sequential_Q(x)
+				if !isBoolType(x.Type()) {
+					continue
+				}
+				ai := argIndex(&x.Call)
+				if ai < 0 {
+					continue
+				}
+				callee := x.Call.StaticCallee()
+				if callee == nil || !inModule(callee) || len(callee.Blocks) == 0 || ai >= len(callee.Params) {
+					murky[x] = true
+					continue
+				}
+				t, f := ka.boolResult(callee, ai, k, 0, depth+1)
+				if t != f {
+					assign[x] = t
+				} else {
+					murky[x] = true
+				}
+			}
+		}
+	}
+	// walk
+	success, failure, unknown := false, false, false
+	seen := map[*ssa.BasicBlock]bool{}
+	stack := []*ssa.BasicBlock{fn.Blocks[0]}
+	ei := hasErrorResult(fn)
+	for len(stack) > 0 {
+		b := stack[len(stack)-1]
+		stack = stack[:len(stack)-1]
+		if seen[b] {
+			continue
+		}
+		seen[b] = true
+		last := b.Instrs[len(b.Instrs)-1]
+		if ret, ok := last.(*ssa.Return); ok {
+			if ei < 0 || ei >= len(ret.Results) {
+				success = true
+				continue
+			}
+			ev := resolveRet(ret.Results[ei])
+			if isNilConst(ev) {
+				success = true
+				continue
+			}
+			// the results of a callee handed on as they are
+			if ex, ok := ev.(*ssa.Extract); ok {
+				if c, ok := ex.Tuple.(*ssa.Call); ok {
+					callee := c.Call.StaticCallee()
+					ai := argIndex(&c.Call)
+					if callee != nil && ai >= 0 && inModule(callee) && len(callee.Blocks) > 0 && hasErrorResult(callee) == ex.Index {
+						switch ka.verdict(callee, ai, k, depth+1) {
+						case kindAccept:
+							success = true
+						case kindReject:
+							failure = true
+						default:
+							unknown = true
+						}
+						continue
+					}
+					// an error of a call that does not get the parameter: a failure where it is known to be
+					// non-nil (returned under `if err != nil`), otherwise it may be nil
+					if ka.engine().nonNilFact(ev, b) {
+						failure = true
+					} else {
+						success, failure = true, true
+					}
+					continue
+				}
+			}
+			failure = true
+			continue
+		}
+		if _, isPanic := last.(*ssa.Panic); isPanic {
+			failure = true
+			continue
+		}
+		if iff := blockIf(b); iff != nil {
+			cond, neg := iff.Cond, false
+			if u, ok := cond.(*ssa.UnOp); ok && u.Op == token.NOT {
+				cond, neg = u.X, true
+			}
+			if val, ok := assign[cond]; ok {
+				if val != neg {
+					stack = append(stack, b.Succs[0])
+				} else {
+					stack = append(stack, b.Succs[1])
+				}
+				continue
+			}
+			if ka.mentions(cond, murky, map[ssa.Value]bool{}, 0) {
+				unknown = true
+			}
+		}
+		stack = append(stack, b.Succs...)
+	}
+	switch {
+	case unknown:
+		return kindUnknown
+	case success:
+		return kindAccept
+	case failure:
+		return kindReject
+	}
+	return kindUnknown
+}
+
+// mentions: the condition is computed from one of the murky values (through boolean merges and negations).
+func (ka *kindAnalysis) mentions(v ssa.Value, murky map[ssa.Value]bool, seen map[ssa.Value]bool, depth int) bool {
+	if depth > 6 || seen[v] {
+		return false
+	}
+	seen[v] = true
+	if murky[v] {
+		return true
+	}
+	switch x := v.(type) {
+	case *ssa.Phi:
+		for _, ed := range x.Edges {
+			if ka.mentions(ed, murky, seen, depth+1) {
+				return true
+			}
+		}
+	case *ssa.UnOp:
+		return ka.mentions(x.X, murky, seen, depth+1)
+	case *ssa.BinOp:
+		return ka.mentions(x.X, murky, seen, depth+1) || ka.mentions(x.Y, murky, seen, depth+1)
+	}
+	return false
+}
+
+// boolResult: can result number ri of fn be true / false when parameter idx has kind k?
+func (ka *kindAnalysis) boolResult(fn *ssa.Function, idx int, k string, ri int, depth int) (canTrue, canFalse bool) {
+	if depth > 4 {
+		return true, true
+	}
+	for _, ret := range ka.feasibleReturns(fn, idx, k, depth) {
+		if ri >= len(ret.Results) {
+			return true, true
+		}
+		v := resolveRet(ret.Results[ri])
+		if c, ok := v.(*ssa.Const); ok && c.Value != nil && c.Value.Kind() == constant.Bool {
+			if constant.BoolVal(c.Value) {
+				canTrue = true
+			} else {
+				canFalse = true
+			}
+			continue
+		}
+		// `return x == nil`
+		if bo, ok := v.(*ssa.BinOp); ok && (bo.Op == token.EQL || bo.Op == token.NEQ) && isNilConst(bo.Y) {
+			inner := bo.X
+			for {
+				if mi, ok := inner.(*ssa.MakeInterface); ok {
+					inner = mi.X
+					continue
+				}
+				if ci, ok := inner.(*ssa.ChangeInterface); ok {
+					inner = ci.X
+					continue
+				}
+				break
+			}
+			if inner == ssa.Value(fn.Params[idx]) {
+				if (bo.Op == token.EQL) == (k == "nil") {
+					canTrue = true
+				} else {
+					canFalse = true
+				}
+				continue
+			}
+		}
+		// `_, ok := x.(T); return ok`
+		if ex, ok := v.(*ssa.Extract); ok && ex.Index == 1 {
+			if ta, ok := ex.Tuple.(*ssa.TypeAssert); ok && ta.CommaOk {
+				inner := ta.X
+				for {
+					if mi, ok := inner.(*ssa.MakeInterface); ok {
+						inner = mi.X
+						continue
+					}
+					break
+				}
+				if inner == ssa.Value(fn.Params[idx]) {
+					kt := ka.kinds[k]
+					if _, isIface := ta.AssertedType.Underlying().(*types.Interface); !isIface {
+						if kt != nil && types.Identical(ta.AssertedType, kt) {
+							canTrue = true
+						} else {
+							canFalse = true
+						}
+						continue
+					}
+				}
+			}
+		}
+		return true, true
+	}
+	return
+}
+
+// domainTableRule: the kinds of argument each collection builtin takes are part of its definition ("outside their
+// domain they return an error instead of a wrong value"). For every parameter the verdict per kind is compared
+// with the table confirmed on the reviewed tree: a kind that was refused and is now answered for (a wrong value
+// where an error is due), or was answered for and is now refused, is reported. Where the analysis cannot decide
+// (a test on the argument it cannot follow), nothing is said.
+func domainTableRule(w *World, r *Report, rule string) {
+	r.rule(rule, "for every lisp-value parameter of the registered builtins of lib/core and each kind of value (nil, list, vector, hash-map, set, symbol, string, int) the builtin still answers without error exactly where the confirmed table says it does and still refuses where the table says it refuses (decided by following the control flow with the argument's dynamic kind fixed, through the helpers and predicates the argument is handed to; undecidable cases give no verdict)")
+	ka := newKindAnalysis(w)
+	var kinds []string
+	for k := range ka.kinds {
+		kinds = append(kinds, k)
+	}
+	sort.Strings(kinds)
+	n, decided := 0, 0
+	for _, fn := range w.registeredFuncs() {
+		if !strings.HasSuffix(fnPkgPath(fn), "/lib/core") || fn.Parent() != nil || len(fn.Blocks) == 0 {
+			continue
+		}
+		for i, p := range fn.Params {
+			if !isMalType(p.Type()) {
+				continue
+			}
+			row, ok := confirmedArgKinds[w.roleName(fn)+"#"+itoa(i)]
+			if !ok {
+				row, ok = confirmedArgKinds[fn.Name()+"#"+itoa(i)]
+			}
+			if !ok {
+				continue // a builtin added later: no reference
+			}
+			n++
+			acc, rej := map[string]bool{}, map[string]bool{}
+			for _, k := range strings.Split(row[0], ",") {
+				acc[k] = true
+			}
+			for _, k := range strings.Split(row[1], ",") {
+				rej[k] = true
+			}
+			var widened, narrowed []string
+			for _, k := range kinds {
+				switch ka.verdict(fn, i, k, 0) {
+				case kindAccept:
+					decided++
+					if rej[k] {
+						widened = append(widened, k)
+					}
+				case kindReject:
+					decided++
+					if acc[k] {
+						narrowed = append(narrowed, k)
+					}
+				}
+			}
+			what := fmt.Sprintf("kinds taken for parameter %d of %s", i, fn.Name())
+			switch {
+			case len(widened) > 0:
+				r.bad(rule, fn, what, fn.Pos(), "the builtin now answers without error for an argument of kind "+strings.Join(widened, ", ")+", which it refused: outside its domain it returns a value where the definition prescribes an error")
+			case len(narrowed) > 0:
+				r.bad(rule, fn, what, fn.Pos(), "the builtin now refuses an argument of kind "+strings.Join(narrowed, ", ")+", which it answered for: inside its domain it fails where the model gives a value")
+			default:
+				r.ok(rule, fn, what, fn.Pos(), "accepts {"+row[0]+"}, refuses {"+row[1]+"}")
+			}
+		}
+	}
+	r.floor(rule, "parameters compared with the confirmed table", n, 30)
+	r.floor(rule, "kind verdicts decided", decided, 150)
+}
+
+func (ka *kindAnalysis) engine() *Engine {
+	if ka.e == nil {
+		ka.e = newEngine(ka.w)
+	}
+	return ka.e
 }
